@@ -371,10 +371,22 @@ pub(crate) mod verif_c14 {
     /// marker element types: opaque one-event Serialize with a distinct leaf schema each, standing for "any T"
     pub struct MA;
     pub struct MB;
+    pub struct MC;
+    pub struct MD;
+    pub struct ME;
+    pub struct MF;
     impl Schema for MA { const SCHEMA: &'static DataModelType = &DataModelType::I128; }
     impl Schema for MB { const SCHEMA: &'static DataModelType = &DataModelType::F32; }
+    impl Schema for MC { const SCHEMA: &'static DataModelType = &DataModelType::U16; }
+    impl Schema for MD { const SCHEMA: &'static DataModelType = &DataModelType::Bool; }
+    impl Schema for ME { const SCHEMA: &'static DataModelType = &DataModelType::Char; }
+    impl Schema for MF { const SCHEMA: &'static DataModelType = &DataModelType::I8; }
     impl Serialize for MA { fn serialize<S: ser::Serializer>(&self, s: S) -> Result<S::Ok, S::Error> { s.serialize_i128(0) } }
     impl Serialize for MB { fn serialize<S: ser::Serializer>(&self, s: S) -> Result<S::Ok, S::Error> { s.serialize_f32(0.0) } }
+    impl Serialize for MC { fn serialize<S: ser::Serializer>(&self, s: S) -> Result<S::Ok, S::Error> { s.serialize_u16(0) } }
+    impl Serialize for MD { fn serialize<S: ser::Serializer>(&self, s: S) -> Result<S::Ok, S::Error> { s.serialize_bool(true) } }
+    impl Serialize for ME { fn serialize<S: ser::Serializer>(&self, s: S) -> Result<S::Ok, S::Error> { s.serialize_char('x') } }
+    impl Serialize for MF { fn serialize<S: ser::Serializer>(&self, s: S) -> Result<S::Ok, S::Error> { s.serialize_i8(0) } }
 
     macro_rules! scalar {
         ($name:ident, $t:ty) => {
@@ -423,10 +435,10 @@ pub(crate) mod verif_c14 {
         check(&&MA);
         check(&(MA,));
         check(&(MA, MB));
-        check(&(MA, MB, MA));
-        check(&(MA, MB, MA, MB));
-        check(&(MA, MB, MA, MB, MA));
-        check(&(MA, MB, MA, MB, MA, MB));
+        check(&(MA, MB, MC));
+        check(&(MA, MB, MC, MD));
+        check(&(MA, MB, MC, MD, ME));
+        check(&(MA, MB, MC, MD, ME, MF));
         check(&[MA, MA, MA]);
         check::<[MB; 0]>(&[]);
     }
